@@ -293,3 +293,49 @@ _install_overlap2 = install
 def install(w):   # noqa: F811
     _install_overlap2(w)
     install_find_conflict(w)
+
+
+def install_pair_loops(w):
+    """collect_conflicts_within / collect_conflicts_between: the pair space of one response name.
+    Within one field map every unordered pair of fields sharing a response name is compared once
+    (field i against each later one, never exclusive, no variable maps); between two maps every field
+    of the first with every field of the second under the same response name, with the flag and each
+    side's variable map; a conflict found is recorded, nothing else is."""
+    FIELD = ("tuple", "opt:ty", "ref:FieldNode", "opt:ref:GraphQLField")
+    FMAP = ("omap", ("list", FIELD))
+    FC_PASS = ["same(arg_context, context)",
+               "same(arg_cached_fields_and_fragment_spreads, cached_fields_and_fragment_spreads)",
+               "same(arg_compared_fields_and_fragment_pairs, compared_fields_and_fragment_pairs)",
+               "same(arg_compared_fragment_pairs, compared_fragment_pairs)",
+               "arg_response_name == response_name"]
+    w.contracts[f"{OF}.find_conflict"].ghost_calls = ["fc_calls"]
+    REC = ["len(conflicts) == at_iter_start(len(conflicts)) + ite(truthy(conflict), 1, 0)",
+           "ghost('fc_calls') == at_iter_start(ghost('fc_calls')) + 1"]
+    w.contract(f"{OF}.collect_conflicts_within", params=dict(SHARED, field_map=FMAP),
+               ensures=[], raises=RAISES, modifies=[], ghost_calls=["within_calls"],
+               valid_schema=True,
+               call_pre={"find_conflict#1": FC_PASS + [
+                   "not arg_parent_fields_are_mutually_exclusive",
+                   "arg_field1[1] is field[1]", "arg_field2[1] is other_field[1]",
+                   "is_none(arg_var_map1)", "is_none(arg_var_map2)"]},
+               loops={3: {"step_post": REC}},
+               override=True, props={"C14"})
+    w.contract(f"{OF}.collect_conflicts_between",
+               params=dict(SHARED, parent_fields_are_mutually_exclusive="bool", field_map1=FMAP,
+                           var_map1=D, field_map2=FMAP, var_map2=D),
+               ensures=[], raises=RAISES, modifies=[], ghost_calls=["between_calls"],
+               valid_schema=True,
+               call_pre={"find_conflict#1": FC_PASS + [
+                   "arg_parent_fields_are_mutually_exclusive == parent_fields_are_mutually_exclusive",
+                   "arg_field1[1] is field1[1]", "arg_field2[1] is field2[1]",
+                   "same(arg_var_map1, var_map1)", "same(arg_var_map2, var_map2)"]},
+               loops={3: {"step_post": REC}},
+               override=True, props={"C14"})
+
+
+_install_overlap3 = install
+
+
+def install(w):   # noqa: F811
+    _install_overlap3(w)
+    install_pair_loops(w)
